@@ -232,7 +232,7 @@ def make_cases(chk):
                     m['cs'][0]['np'] = m['cs'][0]['dp'] = ''
                     op.update(expect='infeasible', why='a fraction above 1')
                 elif 'cs' in m:
-                    m['cs'][0]['v'] = '-' + m['cs'][0]['v']
+                    m['cs'][0]['v'] = '-' + m['cs'][0]['v'].lstrip('+')
                     op.update(expect='infeasible', why='a negative concentration')
             elif not use_container:
                 op['expect'] = 'feasible'
